@@ -2,6 +2,8 @@ import IrVerif.Drive.Util
 import IrVerif.Model.Sort
 import IrVerif.Model.SortState
 import IrVerif.Model.SortIds
+import IrVerif.Model.SortFull
+import IrVerif.Model.Heap
 /-! Protocol handler for the C12 model (`IrVerif.Sort`).
 
 Requests: `{"m": "sort.sort", "graph": G}` (`r` = `sortModel`, `after` = `sortEffect`, `ids` = `sortIds`, the
@@ -16,7 +18,16 @@ containers = C11's pointer-level model): `E = {"e":"new"}` | `{"e":"op","g":k,"o
 `{"e":"tables","ins":[[v,[p|null..]]..],"attrs":[[v,[{"g":k}|{"gs":[k..]}..]]..]}` |
 `{"e":"sort","g":k,"order":[k..]|null}`; the answer has one record per sort: outcome, write trace, node
 sequence of every container afterwards, C11's executable invariant on every container, the keys of
-`sorted_nodes_by_graph` and whether the requested re-link order was an arrangement of them. -/
+`sorted_nodes_by_graph` and whether the requested re-link order was an arrangement of them.
+`{"m": "sort.full", "events": [E...]}` runs a history on the FULL world (`Model/SortFull.lean`): the events above plus
+`{"e":"recs","nodes":[[id,graph|null,name|null,opType,[outs]]..],"vals":[[id,name|null,null|[locked,tname|null],owner|null]..],
+"auths":[[g,vCtr,nCtr,[vNames],[nNames]]..]}` (what the checks and the naming step read, as it is now) and
+`{"e":"pass","roots":[k..],"orders":[[k..]|null ..]}` (`TopologicalSortPass.call`: `passF`; also `passW` on the containers
+and `passHypB`); a `sort` event runs `sortF`.  Per sort / pass: outcome, write trace, containers, `node.graph` and the
+names of the listed nodes / values / tensors, the authorities of the listed graphs, the hypotheses
+(`Consistent`, order is an arrangement of `keysF`, C11's invariant, `passHypB`).
+`{"m": "sort.heap", "ops": [["push", k] | ["pop"] ...], "init": [k..]}`: `heapq.heapify` / `heappush` / `heappop` on a list
+(`Model/Heap.lean`): the list after every operation, the popped keys, the heap invariant after every operation. -/
 open Lean IrVerif.Drive
 namespace IrVerif.Drive.Sort
 open IrVerif.Sort
@@ -116,6 +127,144 @@ def runState (evs : List SOp) : List Json :=
       | o => go (stepW w o).1 os
   go SWorld.init evs
 
+
+/-! ### the full world -/
+
+def optStrJ : Option String → Json
+  | none => Json.null
+  | some s => Json.str s
+def optNatJ : Option Nat → Json
+  | none => Json.null
+  | some n => toJson n
+
+def parseOptStr (j : Json) : Except String (Option String) :=
+  match j with
+  | Json.null => pure none
+  | j => do let s ← (fromJson? j : Except String String); pure (some s)
+def parseOptNat (j : Json) : Except String (Option Nat) :=
+  match j with
+  | Json.null => pure none
+  | j => do let s ← (fromJson? j : Except String Nat); pure (some s)
+
+inductive FEv where
+  | s (o : SOp)
+  | recs (nodes : List (Nat × NodeR)) (vals : List (Nat × ValR)) (auths : List (Nat × AuthR))
+  | pass (roots : List Nat) (orders : List (Option (List Nat)))
+
+def parseFEv (j : Json) : Except String FEv := do
+  let e ← getStr j "e"
+  match e with
+  | "recs" =>
+    let ns ← (← getArr j "nodes").mapM (fun x => do
+      let a ← (fromJson? x : Except String (Array Json))
+      let i ← (fromJson? a[0]! : Except String Nat)
+      let g ← parseOptNat a[1]!
+      let nm ← parseOptStr a[2]!
+      let op ← (fromJson? a[3]! : Except String String)
+      let outs ← (fromJson? a[4]! : Except String (Array Nat))
+      pure (i, ({ graph := g, name := nm, opType := op, outputs := outs.toList } : NodeR)))
+    let vs ← (← getArr j "vals").mapM (fun x => do
+      let a ← (fromJson? x : Except String (Array Json))
+      let i ← (fromJson? a[0]! : Except String Nat)
+      let nm ← parseOptStr a[1]!
+      let c ← (match a[2]! with
+        | Json.null => pure none
+        | c => do
+          let ca ← (fromJson? c : Except String (Array Json))
+          let l ← (fromJson? ca[0]! : Except String Bool)
+          let tn ← parseOptStr ca[1]!
+          pure (some (l, tn)) : Except String (Option (Bool × Option String)))
+      let ow ← parseOptNat a[3]!
+      pure (i, ({ name := nm, const := c, owner := ow } : ValR)))
+    let as ← (← getArr j "auths").mapM (fun x => do
+      let a ← (fromJson? x : Except String (Array Json))
+      let g ← (fromJson? a[0]! : Except String Nat)
+      let vc ← (fromJson? a[1]! : Except String Nat)
+      let nc ← (fromJson? a[2]! : Except String Nat)
+      let vn ← (fromJson? a[3]! : Except String (Array String))
+      let nn ← (fromJson? a[4]! : Except String (Array String))
+      pure (g, ({ vCtr := vc, nCtr := nc, vNames := vn.toList, nNames := nn.toList } : AuthR)))
+    return .recs ns vs as
+  | "pass" =>
+    let roots ← getNats j "roots"
+    let ords ← (← getArr j "orders").mapM (fun x => match x with
+      | Json.null => pure (none : Option (List Nat))
+      | x => do let a ← (fromJson? x : Except String (Array Nat)); pure (some a.toList))
+    return .pass roots ords
+  | _ => return .s (← parseSOp j)
+
+def foutJ : FOut → Json
+  | .ok => Json.str "ok"
+  | .valueError => Json.str "valueError"
+  | .recursionError => Json.str "recursionError"
+  | .assertionError => Json.str "assertionError"
+  | .refused => Json.str "refused"
+  | .late => Json.str "late"
+
+def sortStrs (l : List String) : List String := (l.toArray.qsort (· < ·)).toList
+
+/-- what is observable of the records of the listed nodes / values / graphs -/
+def recsJ (w : FWorld) (ns vs gs : List Nat) : List (String × Json) :=
+  [("nodes", Json.arr (ns.map (fun n => Json.arr #[toJson n, optNatJ (w.nodes n).graph, optStrJ (w.nodes n).name])).toArray),
+   ("vals", Json.arr (vs.map (fun v => Json.arr #[toJson v, optStrJ (w.vals v).name,
+      match (w.vals v).const with | none => Json.null | some c => optStrJ c.2])).toArray),
+   ("auths", Json.arr (gs.map (fun g => Json.arr #[toJson g, toJson (w.auths g).vCtr, toJson (w.auths g).nCtr,
+      strsJ (sortStrs (w.auths g).vNames), strsJ (sortStrs (w.auths g).nNames)])).toArray)]
+
+def absJ (w : SWorld) : Json := Json.arr (w.rw.sets.map (fun s => natsJ (LinkedSet.toList s))).toArray
+
+/-- the re-link orders of the sorts of a pass, resolved in sequence (a missing / impossible order is replaced by
+    the default order of that moment); also: were all requested orders arrangements of the keys -/
+def resolveOrders : FWorld → List (Nat × Option (List Nat)) → List (Nat × List Nat) × Bool
+  | _, [] => ([], true)
+  | w, (g, o) :: rest =>
+    let keys := defaultOrderF w g
+    let okOrd := match o with
+      | none => true
+      | some l => isPermOf l keys
+    let ord := if okOrd then o.getD keys else keys
+    let r := sortF w ord g
+    if r.out = .ok then
+      let rr := resolveOrders r.world rest
+      ((g, ord) :: rr.1, okOrd && rr.2)
+    else ((g, ord) :: rest.map (fun p => (p.1, p.2.getD [])), okOrd)
+
+def runFull (evs : List FEv) : List Json :=
+  let rec go (w : FWorld) (ns vs gs : List Nat) : List FEv → List Json
+    | [] => []
+    | ev :: os =>
+      match ev with
+      | .s (.sort g ord) =>
+        let keys := defaultOrderF w g
+        let okOrd := match ord with
+          | none => true
+          | some l => isPermOf l keys
+        let r := sortF w (if okOrd then ord.getD keys else keys) g
+        let cons := match unfoldG w.sw w.sw.fuel g with
+          | none => true
+          | some t => decide (Consistent w (nodesOf t))
+        obj ([("out", foutJ r.out), ("trace", graphsJ r.trace), ("after", absJ r.world.sw),
+          ("inv", toJson (r.world.sw.rw.sets.all LinkedSet.invOk)), ("keys", natsJ keys),
+          ("order_ok", toJson okOrd), ("consistent", toJson cons),
+          ("sw_out", soutJ (sortW w.sw (if okOrd then ord.getD keys else keys) g).out)] ++ recsJ r.world ns vs gs)
+          :: go r.world ns vs gs os
+      | .s o => go { w with sw := (stepW w.sw o).1 } ns vs gs os
+      | .recs n v a =>
+        go { w with nodes := fun i => (n.lookup i).getD {}, vals := fun i => (v.lookup i).getD {},
+                    auths := fun i => (a.lookup i).getD {} }
+          (n.map Prod.fst) (v.map Prod.fst) (a.map Prod.fst) os
+      | .pass roots ords =>
+        let rs := resolveOrders w (roots.zip (ords ++ List.replicate roots.length none))
+        let r := passF w rs.1
+        let gls := (graphLikes w.sw roots).getD []
+        let rw := passW w.sw rs.1 gls
+        obj ([("out", foutJ r.out), ("trace", graphsJ r.trace), ("after", absJ r.world.sw),
+          ("inv", toJson (r.world.sw.rw.sets.all LinkedSet.invOk)), ("gls", natsJ gls),
+          ("order_ok", toJson rs.2), ("pass_hyp", toJson (passHypB w.sw rs.1)),
+          ("w_out", soutJ rw.out), ("w_after", absJ rw.world), ("w_trace", graphsJ rw.trace)] ++ recsJ r.world ns vs gs)
+          :: go r.world ns vs gs os
+  go ⟨SWorld.init, fun _ => {}, fun _ => {}, fun _ => {}⟩ [] [] [] evs
+
 def handle : Handler := fun m j =>
   match m with
   | "sort.sort" => some do
@@ -146,6 +295,31 @@ def handle : Handler := fun m j =>
       let evsJ ← getArr j "events"
       let evs ← evsJ.mapM parseSOp
       return obj [("sorts", Json.arr (runState evs).toArray)]
+  | "sort.full" => some do
+      let evsJ ← getArr j "events"
+      let evs ← evsJ.mapM parseFEv
+      return obj [("sorts", Json.arr (runFull evs).toArray)]
+  | "sort.heap" => some do
+      let init ← getNats j "init"
+      let opsJ ← getArr j "ops"
+      let ops ← opsJ.mapM (fun x => do
+        let a ← (fromJson? x : Except String (Array Json))
+        let k ← (fromJson? a[0]! : Except String String)
+        if k == "push" then do
+          let v ← (fromJson? a[1]! : Except String Nat)
+          pure (some v)
+        else pure (none : Option Nat))
+      let h0 := Heap.heapify init
+      let rec run (h : List Nat) : List (Option Nat) → List Json
+        | [] => []
+        | some v :: os =>
+          let h' := Heap.heappush h v
+          obj [("heap", natsJ h'), ("inv", toJson (Heap.isHeap h'))] :: run h' os
+        | none :: os =>
+          let r := Heap.heappop h
+          obj [("heap", natsJ r.2), ("pop", optNatJ r.1), ("inv", toJson (Heap.isHeap r.2)),
+            ("min", optNatJ (Heap.minOf h))] :: run r.2 os
+      return obj [("heap0", natsJ h0), ("inv0", toJson (Heap.isHeap h0)), ("steps", Json.arr (run h0 ops).toArray)]
   | "sort.relink" => some do
       return obj [("r", natsJ (relink (← getNats j "cur") (← getNats j "xs")))]
   | _ => none
